@@ -10,10 +10,11 @@ _real = np.random.default_rng
 
 @contextlib.contextmanager
 def installed(ctx):
-    counts = {}
+    ctx.rng_counts = {}      # a machine may reset it to re-align a twin run
 
     def fake(seed=None, *a, **kw):
         if seed is None and not a and not kw:
+            counts = ctx.rng_counts
             n = counts.get(ctx.opi, 0)
             counts[ctx.opi] = n + 1
             ctx.stats.seam('rng')
